@@ -46,5 +46,5 @@ def obligations(tier):
         CH("extensions_argument_unchanged", H, "extensions_argument", t, mode="E1s", functions=F[2:] + ["stix2.properties.ExtensionsProperty.clean", "stix2.custom._custom_object_builder"],
            bounds="5 shapes of a caller's extensions dictionary (empty, instances only, dictionaries, mixed, empty instance) x 4 users (custom object / observable declared "
                   "with extension_name, new_version, File) x once/twice: keys, value identities and content unchanged, an object built earlier from it unchanged"),
-        CH("arguments_unchanged", H, "arguments_unchanged", t, mode="E1s", functions=F[2:], bounds="16 operations x (called once, called twice on the same arguments)"),
+        CH("arguments_unchanged", H, "arguments_unchanged", t, mode="E1s", functions=F[2:], bounds="20 operations (incl. one ObjectFactory / Environment used repeatedly, Bundle(list, item)) x (called once, called twice on the same arguments)"),
     ]
